@@ -32,6 +32,9 @@ Extra == <<
   [n |-> "env_file", top |-> FALSE, p |-> <<"env_file">>, v |-> Sq2(S("./a.env"), M2("path", S("./b.env"), "required", B(FALSE)))],
   [n |-> "ssh default", top |-> FALSE, p |-> <<"build">>, v |-> M2("context", S("."), "ssh", Sq1(S("default")))],
   [n |-> "env_file same file spelled twice", top |-> FALSE, p |-> <<"env_file">>, v |-> L(<<S("./a.env"), S("b.env"), S("a.env")>>)],
+  [n |-> "x- keys in free-form mappings", top |-> FALSE, p |-> <<"environment">>, v |-> Sq2(S("x-trace=1"), S("A=2"))],
+  [n |-> "x- label", top |-> FALSE, p |-> <<"labels">>, v |-> Sq1(S("x-team=core"))],
+  [n |-> "x- network of a service", top |-> TRUE, p |-> <<"networks", "x-net">>, v |-> M1("driver", S("bridge"))],
   [n |-> "ssh key without path", top |-> FALSE, p |-> <<"build">>, v |-> M2("context", S("."), "ssh", M2("mykey", Null, "default", Null))],
   [n |-> "ssh key path", top |-> FALSE, p |-> <<"build">>, v |-> M2("context", S("."), "ssh", Sq1(S("k1=/p1")))],
   [n |-> "ssh keys", top |-> FALSE, p |-> <<"build">>, v |-> M2("context", S("."), "ssh", Sq2(S("k1=/p1"), S("k2=/p2")))],
